@@ -7,6 +7,8 @@ cd "$(dirname "$0")/harness" || exit 2
 export GOFLAGS=-mod=mod GOPROXY=off GOSUMDB=off GOTOOLCHAIN=local CGO_ENABLED=1
 export VERIF_DIR="$(cd .. && pwd)"
 BIN="$VERIF_DIR/.work/bin"; mkdir -p "$BIN"
+# scratch of earlier runs (job files, worker output, race logs): keep only the 12 newest run directories
+if [ -d "$VERIF_DIR/.work/run" ]; then ls -1dt "$VERIF_DIR"/.work/run/*/ 2>/dev/null | tail -n +13 | xargs -r rm -rf; fi
 MODFLAG=""
 if [ -n "${VERIF_MODFILE:-}" ]; then MODFLAG="-modfile=$VERIF_MODFILE"; BIN="$BIN-$(basename "$VERIF_MODFILE" .mod)"; mkdir -p "$BIN"; fi
 go build $MODFLAG -tags verif -o "$BIN/vcheck" ./cmd/vcheck || { echo "BUILD FAILED"; exit 2; }
